@@ -60,6 +60,7 @@ fn et_s(e: ET) -> &'static str {
         ET::U16 => "u16",
         ET::Byte => "byte",
         ET::Unit => "unit",
+        ET::Zst => "zst",
     }
 }
 fn et_p(s: &str) -> Option<ET> {
@@ -70,6 +71,7 @@ fn et_p(s: &str) -> Option<ET> {
         "u16" => ET::U16,
         "byte" => ET::Byte,
         "unit" => ET::Unit,
+        "zst" => ET::Zst,
         _ => return None,
     })
 }
@@ -227,6 +229,7 @@ fn elem(e: ET, next: &mut u32) -> Vec<(u32, bool)> {
             vec![(id & 0xff, false)]
         }
         ET::Unit => vec![],
+        ET::Zst => vec![(0, false)],
     }
 }
 
@@ -374,7 +377,7 @@ pub fn execute(t: &Trace) -> Outcome {
                                     }
                                 }
                             }
-                            if matches!(ty, Ty::OSlice(ET::Unit) | Ty::BSlice(ET::Unit)) {
+                            if matches!(ty, Ty::OSlice(ET::Unit) | Ty::BSlice(ET::Unit) | Ty::OSlice(ET::Zst) | Ty::BSlice(ET::Zst)) {
                                 ctr.inc("fault_zst_element_slice_fired");
                             }
                         }
@@ -640,6 +643,12 @@ fn check_after(step: usize, model: &[Option<MSlot>], foreign: &[(u32, *mut CbDat
     let mut expect: Vec<u32> = model.iter().flatten().flat_map(|m| m.ids.iter().filter(|x| x.1).map(|x| x.0)).collect();
     expect.extend(foreign.iter().map(|f| f.0));
     expect.sort_unstable();
+    // zero-sized tracked elements are counted, not identified
+    let zst_expect: i64 = model.iter().flatten().filter(|m| matches!(m.ty, Ty::OSlice(ET::Zst) | Ty::BSlice(ET::Zst))).map(|m| m.ids.len() as i64).sum();
+    if ledger::zst_live() != zst_expect {
+        let (o, d) = if ledger::zst_live() < zst_expect { ("O2-premature-drop", "were dropped although a live slice still owns them") } else { ("O2-leak", "are alive although no slice owns them any more (their destructors never ran)") };
+        return Some(Violation { oracle: o.into(), step, detail: format!("{} zero-sized elements with drop glue expected alive, {} are: some {}", zst_expect, ledger::zst_live(), d) });
+    }
     let live = ledger::live();
     if live != expect {
         let missing: Vec<u32> = expect.iter().filter(|x| !live.contains(x)).copied().collect();
@@ -668,7 +677,7 @@ pub fn gen_trace(seed: u64, run: u64, _miri: bool) -> Trace {
         }
         v
     };
-    let all_et = [ET::Heavy, ET::Light, ET::Word, ET::U16, ET::Byte, ET::Unit];
+    let all_et = [ET::Heavy, ET::Light, ET::Word, ET::U16, ET::Byte, ET::Unit, ET::Zst];
     let et_pool: Vec<ET> = {
         let mut v: Vec<ET> = all_et.iter().copied().filter(|_| rng.chance(1, 2)).collect();
         if v.is_empty() {
